@@ -67,6 +67,8 @@ func (d *Document) BlockStringValueContentRawString(ref int) string {
 	return unsafebytes.BytesToString(d.BlockStringValueContentRawBytes(ref))
 }
 
+var escapedTripleQuote = []byte(`\"""`)
+
 func (d *Document) BlockStringValueContentBytes(ref int) []byte {
 
 	// Implements https://spec.graphql.org/October2021/#BlockStringValue()
@@ -74,8 +76,14 @@ func (d *Document) BlockStringValueContentBytes(ref int) []byte {
 	// NOTE: This implementation exactly follows the spec.
 	// It likely could be optimized for performance.
 
-	// split the raw value into lines
+	// the raw value is the block string content with the escape sequence \""" replaced by """
+	// (the replacement allocates, so the input bytes stay untouched)
 	rawValue := d.BlockStringValueContentRawBytes(ref)
+	if bytes.Contains(rawValue, escapedTripleQuote) {
+		rawValue = bytes.ReplaceAll(rawValue, escapedTripleQuote, escapedTripleQuote[1:])
+	}
+
+	// split the raw value into lines
 	lines := splitBytesIntoLines(rawValue)
 
 	// find the common indent size (-1 means no common indent)
